@@ -207,8 +207,9 @@ let handle (x : sexp) : (string * string) list =
           let names = String.concat " " (List.map (function L [A "r"; S t; S f; _; dn] -> t ^ "." ^ f ^ (if sbool dn then "!" else "") | _ -> "") rs) in
           if mode = "pre" || op <> "query" then
             if not (gate_spec_b (optype_of op) roots true) then
-              add "specfail" (Printf.sprintf "fetch_gate%s%s a %s request was sent to %s although %s of its root fields [%s] denied (FetchInfo.RootFields of the planned fetch: %s)%s"
+              add "specfail" (Printf.sprintf "fetch_gate%s%s%s a %s request was sent to %s although %s of its root fields [%s] denied (FetchInfo.RootFields of the planned fetch: %s)%s"
                                 (if mode = "pre" then "" else "/legacy") (if planroots = "0" then "/no-rootfields" else "")
+                                (if find_opt "deferred" items <> None then "/deferred" else "")
                                 op ds (if op = "query" then "all" else "one") names planroots tail)
         | _ -> raise (Sexp_error "rq")) (find "reqs" items);
     (* 8 the gate model on the planned fetches *)
